@@ -108,6 +108,22 @@ def std_cases(chk, with_grad, n_list=None, d_list=None, reps=1, short=0.8, gkind
 # ----------------------------------------------------------------------------------------------- C01
 def c01(chk):
     cases = std_cases(chk, with_grad=False, reps=2 if not chk.thorough() else 4)
+    # consecutive problems of one structure land on the same persistent object: half of them keep the previous duration
+    # vector bit-for-bit and change only the start time and the data (a "durations unchanged" shortcut must still move the
+    # knot times), a quarter keep the start time and the data and change only the durations
+    rng = chk.rng
+    for prev, c in zip(cases, cases[1:]):
+        if (prev.order, prev.d, prev.n) != (c.order, c.d, c.n):
+            continue
+        u = rng.random()
+        if u < 0.5:
+            c.h = list(prev.h)
+            c.t0 = prev.t0 + rng.choice([0.5, -2.0, 3.25, 64.0])
+            c.mode = rng.choice([prev.mode, c.mode])
+            chk.count('same durations, new start time')
+        elif u < 0.75:
+            c.t0 = prev.t0; c.P = copy.deepcopy(prev.P); c.bc = copy.deepcopy(prev.bc)
+            chk.count('same data, new durations')
     # every case also in the other time mode, fresh object and reused object (update overloads)
     twins = []
     for c in cases:
@@ -243,6 +259,12 @@ def c02(chk):
     for c in cases:
         c.mode = 'dur'
         c.t0 = 0.0
+    # the property bounds the duration *ratio*, not the unit: a third of the problems are rescaled in time by a power of two
+    # (milliseconds … hours); an absolute threshold anywhere in the solver shows here
+    for c in cases[1::3]:
+        f = 2.0 ** chk.rng.choice([-10, -7, -4, 5, 8, 11, 13])
+        c.h = [x * f for x in c.h]
+        chk.count('rescaled in time')
     cpp, mod = run_both(cases)
     chk.evaluations += len(cases)
     dense_budget = 40 if not chk.thorough() else 200
@@ -581,7 +603,7 @@ def c13(chk):
     rng = chk.rng
     dl = [2, 3, 4, 5, 10] if not chk.thorough() else list(range(2, 11))
     nl = [1, 2, 3, 5] if not chk.thorough() else [1, 2, 3, 5, 8, 12]
-    cases = std_cases(chk, with_grad=True, n_list=nl, d_list=dl, gkinds=('dense',))
+    cases = std_cases(chk, with_grad=True, n_list=nl, d_list=dl, gkinds=('dense', 'rowsparse'))
     for c in cases:
         c.mode = 'dur'
     allc = []
@@ -666,7 +688,9 @@ def c14(chk):
         k = rng.choice([-3, -1, 1, 2, 5])
         sc = copy.deepcopy(c)
         sc.P = [[x * 2.0 ** k for x in r] for r in c.P]; sc.bc = [[x * 2.0 ** k for x in b] for b in c.bc]
-        q = rng.choice([-2, -1, 1, 2])
+        # small and large factors: the relation is exact for every power of two, so it also reaches durations of hours and of
+        # fractions of a millisecond (absolute thresholds inside the solver would show here)
+        q = rng.choice([-2, -1, 1, 2, 11, 13, -8, -10])
         lam = 2.0 ** q
         tm = copy.deepcopy(c)
         tm.h = [x * lam for x in c.h]
@@ -855,8 +879,18 @@ def c10_splines(chk):
             for hrep in range(nh):
                 slot = 100 + hrep
                 seq = hist_n[:] if hrep == 0 else [rng.choice([1, 2, 3, 4, 6, 9, 12]) for _ in range(rng.randint(4, 10))]
+                prev = None
                 for n in seq:
                     c = gen.spline_case(rng, order, d, n, gkind='dense')
+                    if prev is not None and rng.random() < 0.4:
+                        # same segment count and bit-identical durations as the previous problem on this object, other
+                        # start time / data / time form: nothing may be carried over from the earlier problem
+                        c = gen.spline_case(rng, order, d, prev.n, gkind='dense')
+                        c.h = list(prev.h)
+                        c.t0 = prev.t0 + rng.choice([0.5, -2.0, 3.25, 64.0])
+                        c.mode = rng.choice(['dur', 'dur', 'tp'])
+                        chk.count('history: same durations, new start time')
+                    prev = c
                     c.evals = [(c.t0 + rng.uniform(-0.5, sum(c.h) + 0.5), rng.randrange(0, NC[order] + 1)) for _ in range(3)]
                     variants = []
                     for slot_, qo in ((slot, rng.randrange(3)), (-1, 0), (-1, 1)):
